@@ -346,6 +346,8 @@ func (s *Sorts) Decls() []string {
 		out = append(out,
 			fmt.Sprintf("(declare-fun elt!%s ((Array Int %s) Int Int) %s)", n, e, e),
 			fmt.Sprintf("(assert (forall ((a (Array Int %s)) (o Int) (i Int)) (! (= (elt!%s a o i) (select a (+ o i))) :pattern ((elt!%s a o i)))))", e, n, n),
+			// reading through a store yields a read of the underlying array (keeps quantifier triggers alive)
+			fmt.Sprintf("(assert (forall ((a (Array Int %s)) (p Int) (v %s) (o Int) (i Int)) (! (= (elt!%s (store a p v) o i) (ite (= p (+ o i)) v (elt!%s a o i))) :pattern ((elt!%s (store a p v) o i)) :pattern ((store a p v) (elt!%s a o i)))))", e, e, n, n, n, n),
 		)
 	}
 	var bs []string
